@@ -581,7 +581,7 @@ func C13(tier string) {
 		run.SetBudget(2400e9)
 	}
 	run.Cov["rule"] = "all rooted graphs within the node/edge/decoration bounds over the label alphabet {A,B} (root included), each presented under every renumbering of non-root nodes x edge orders (all permutations if <=4 edges, else as generated/reversed/rotated) x error rotations; oracle: one outcome per orbit (same canonical graph or failure for all), idempotence, root, node and edge multisets preserved; plus structured 13-16 node family (placements of <=3 duplicate nodes among distinct fillers) exercising sort.Sort's large-slice path. Non-trivial = graph has a duplicate version, a parallel edge, a self loop or a node error."
-	bounds := []c13Bounds{{1, 1, 3, false, false}, {2, 3, 2, false, false}, {3, 3, 1, false, false}, {4, 3, 0, false, false}, {5, 5, 0, true, true}}
+	bounds := []c13Bounds{{1, 1, 3, false, false}, {2, 3, 2, false, false}, {3, 3, 1, false, false}, {3, 2, 2, true, true}, {4, 3, 0, false, false}, {5, 5, 0, true, true}}
 	if !quick {
 		bounds = []c13Bounds{{1, 1, 4, false, false}, {2, 4, 3, false, false}, {3, 5, 2, false, false}, {4, 4, 2, false, false}, {5, 3, 1, false, false}, {5, 6, 0, true, false}, {5, 5, 1, true, true}}
 	}
